@@ -49,12 +49,12 @@ def b01 (b : Bool) : String := if b then "1" else "0"
 
 def summary (loaded : Bool) (nsig : Nat) : String := s!"loaded={b01 loaded} nsig={nsig}"
 
-/-- prediction of one loop variant: (summary, marginal?) -/
-def predict (fix : Bool) (c0 : Nat) (evs : List Ev) : String × Bool :=
-  let s := if fix then runFix (initSt c0) evs else runCur (initSt c0) evs
-  let m := if fix then marginalFix (initSt c0) evs else marginalCur (initSt c0) evs
-  (summary (allReported (changeTimes c0 evs) s.signals) s.signals.length,
-    m || marginalRace (changeTimes c0 evs) s.signals)
+/-- the relational tie (see Model): `none` = the automaton's rules explain the observation -/
+def unexplained (o : Obs) : Option String :=
+  let chs := changeTimes o.c0 o.evs
+  if !allLegit chs none o.sigs then some "a signal is neither an immediate nor a trailing report allowed by the loop's rules"
+  else if !promptlyReported o.c0 o.evs o.sigs then some "a change was not reported within minInterval+additionalWait"
+  else none
 
 def step (_ : Unit) (op impl : String) : Unit × DrvOut :=
   match words op with
@@ -63,10 +63,14 @@ def step (_ : Unit) (op impl : String) : Unit × DrvOut :=
     match parseImpl impl with
     | none => ((), { model := "-", spec := "FAIL unparsable implementation answer" })
     | some (o, tail) =>
-      -- only the loop with the trailing-edge timer (/repo 65048a4) is modelled
-      let (pf, mf) := predict true o.c0 o.evs
-      -- after the consumer has gone the loaded content says nothing: no prediction
-      let model := if mf || o.quit || !o.closed then "-" else pf ++ " " ++ tail
+      let mine := summary o.loaded o.nsig
+      -- only the loop with the trailing-edge timer (/repo 65048a4) is modelled; after the consumer has
+      -- gone nothing more is observed: no prediction
+      let model :=
+        if o.quit || !o.closed then "-"
+        else match unexplained o with
+          | none => mine ++ " " ++ tail
+          | some why => "unexplained: " ++ why
       let spec :=
         if !o.closed then "FAIL Close did not return within 2 s (the loop is blocked, shutdown hangs)"
         else if o.quit || o.loaded then "ok"
